@@ -206,31 +206,70 @@ theorem sweepExpire_good (c : Nat) (db : DB) (h : EMid c db) (hlb : ∀ n x, Hol
   · exact h1
   · simp at h1
 
-/-! ### the timeout sweep does not touch holds -/
+/-! ### the timeout sweep of a tick
 
-theorem foldl_holdAt_sub {α β} (f : DB × β → α → DB × β)
-    (hf : ∀ acc a n x, HoldAt (f acc a).1 n x → HoldAt acc.1 n x) (l : List α) (acc : DB × β) :
-    ∀ n x, HoldAt (l.foldl f acc).1 n x → HoldAt acc.1 n x := by
-  induction l generalizing acc with
-  | nil => intro n x h; exact h
-  | cons a as ih =>
-    intro n x h
-    simp only [List.foldl_cons] at h
-    exact hf acc a n x (ih _ n x h)
+It runs while the expiry check time is still the old one (`= now` after the clock moved). Since the C04 fix `doTimeOut` ends
+with a wake pass, so holds may be created here: they go on the expiry wheel relative to check time `now`, i.e. for a
+second `≥ now` — the expiry sweep of this very second (which follows) still sees them. -/
 
-theorem sweepTimeout_holdAt_sub (db : DB) (c : Nat) : ∀ n x, HoldAt (sweepTimeout db c).1 n x → HoldAt db n x := by
+/-- a hold created by a wake pass on key `n` while the expiry check time is `now` or `now + 1` -/
+theorem wakeGrant_ok' {d : DB} {n : Nat} {x : Hold} (hc1 : d.now ≤ d.eCheck) (hc2 : d.eCheck ≤ d.now + 1) (hw : KW d)
+    (h : WakeGrant d (d.getKey n).waiters x) : HOKs d.now n x ∧ d.eCheck ≤ x.sched.visit ∧ SOK d.now x := by
+  obtain ⟨d', w, hc, _, hm, e⟩ := h
+  have hf := clock_fields hc
+  have hk : w.cmd.key = n := hw n w (waitAt_getKey hm)
+  have := grantedHold_ok' d' { w.cmd with conn := w.conn } (by rw [hf.2.2, hf.1]; exact hc1) (by rw [hf.2.2, hf.1]; exact hc2)
+  rw [e, ← hf.1, ← hf.2.2, ← hk]
+  exact this
+
+/-- what is kept all through the timeout sweep of second `c`; `N` = the key ids for which "wheel entry not after the
+deadline" is tracked as well -/
+structure SMid (N : Nat → Prop) (c : Nat) (d : DB) : Prop where
+  now : d.now = c
+  ec : d.eCheck = c
+  kn : KN d
+  kw : KW d
+  hu : HU d
+  ok : ∀ n x, HoldAt d n x → HOKs c n x
+  lb : ∀ n x, HoldAt d n x → c ≤ x.sched.visit
+  ns : ∀ n x, N n → HoldAt d n x → SOK c x
+
+theorem rearmWaiter_SMid {N : Nat → Prop} {c : Nat} {d : DB} (w : Waiter) (h : SMid N c d) : SMid N c (rearmWaiter d w) :=
+  ⟨h.now, h.ec, (rearmWaiter_qAt (0, 0) _ d w ⟨h.kn, rfl⟩).1, rearmWaiter_KW d w h.kw, rearmWaiter_hu d w h.hu,
+    fun n x hx => h.ok n x (rearmWaiter_holdAt hx), fun n x hx => h.lb n x (rearmWaiter_holdAt hx),
+    fun n x hn hx => h.ns n x hn (rearmWaiter_holdAt hx)⟩
+
+theorem fireTimeout_SMid {N : Nat → Prop} {c : Nat} {d : DB} (key : Nat) (w : Waiter) (h : SMid N c d) :
+    SMid N c (fireTimeout d key w).1 := by
+  have hc := clock_fields (clock_fireTimeout d key w)
+  have hg : ∀ n x, HoldAt (fireTimeout d key w).1 n x → HoldAt d n x ∨ (HOKs c n x ∧ c ≤ x.sched.visit ∧ SOK c x) := by
+    intro n x hx
+    rcases fireTimeout_holdAt hx with h1 | ⟨hn, h1⟩
+    · exact Or.inl h1
+    · subst hn
+      have := wakeGrant_ok' (by rw [h.ec, h.now]; exact Nat.le_refl _) (by rw [h.ec, h.now]; exact Nat.le_succ _) h.kw h1
+      rw [h.now, h.ec] at this
+      exact Or.inr this
+  refine ⟨by rw [hc.1]; exact h.now, by rw [hc.2.2]; exact h.ec, KN_fireTimeout _ _ _ h.kn,
+    h.kw.of_sub (fun _ _ hw => fireTimeout_waitAt_sub hw), fireTimeout_hu d key w h.hu, ?_, ?_, ?_⟩
+  · intro n x hx
+    rcases hg n x hx with h1 | h1
+    · exact h.ok n x h1
+    · exact h1.1
+  · intro n x hx
+    rcases hg n x hx with h1 | h1
+    · exact h.lb n x h1
+    · exact h1.2.1
+  · intro n x hn hx
+    rcases hg n x hx with h1 | h1
+    · exact h.ns n x hn h1
+    · exact h1.2.2
+
+theorem sweepTimeout_SMid {N : Nat → Prop} (c : Nat) (db : DB) (c' : Nat) (h : SMid N c db) : SMid N c (sweepTimeout db c').1 := by
   unfold sweepTimeout timeoutPass1
-  intro n x hx
-  have h1 := foldl_holdAt_sub fireTimeoutStep (fun acc a n x hx => by
-    unfold fireTimeoutStep at hx
-    split at hx
-    · exact fireTimeout_holdAt hx
-    · exact hx) _ _ n x hx
-  exact foldl_holdAt_sub timeoutStep (fun acc a n x hx => by
-    unfold timeoutStep at hx
-    split at hx
-    · exact rearmWaiter_holdAt hx
-    · exact hx) _ _ n x h1
+  refine foldl_P (SMid N c) _ (fun acc a ha => by
+    unfold fireTimeoutStep; split; exact fireTimeout_SMid _ _ ha; exact ha) _ _ ?_
+  exact foldl_P (SMid N c) _ (fun acc a ha => by unfold timeoutStep; split; exact rearmWaiter_SMid _ ha; exact ha) _ _ h
 
 theorem sweepTimeout_KW (db : DB) (c : Nat) (h : KW db) : KW (sweepTimeout db c).1 := by
   unfold sweepTimeout timeoutPass1
@@ -303,33 +342,41 @@ theorem opUnlock_HN (db : DB) (c : Cmd) (hw : KW db) (h : HN db) : HN (opUnlock 
 def midTick (db : DB) : DB :=
   { (sweepTimeout { db with now := db.now + 1, tCheck := db.now + 1 + 1 } (db.now + 1)).1 with eCheck := db.now + 1 + 1 }
 
+
 theorem opTick_eq (db : DB) : (opTick db).1 = (sweepExpire (midTick db) (db.now + 1)).1 := by
   unfold opTick midTick; simp only []
 
+/-- the state in which the timeout sweep of a tick starts -/
+def tick0 (db : DB) : DB := { db with now := db.now + 1, tCheck := db.now + 1 + 1 }
+
+theorem tick0_SMid {N : Nat → Prop} (db : DB) (hk : KN db) (hw : KW db) (h : HN db)
+    (hns : ∀ n x, N n → HoldAt db n x → SOK db.now x) : SMid N (db.now + 1) (tick0 db) :=
+  ⟨rfl, h.ec, hk.of_keys_eq rfl, hw.of_sub (fun _ _ hx => hx.of_keys_eq rfl), h.hu.of_keys_seq rfl (Nat.le_refl _),
+    fun n x hx => (h.ok n x (hx.of_keys_eq rfl)).tick, fun n x hx => h.lb n x (hx.of_keys_eq rfl),
+    fun n x hn hx => (hns n x hn (hx.of_keys_eq rfl)).tick⟩
+
+theorem midTick_SMid {N : Nat → Prop} (db : DB) (hk : KN db) (hw : KW db) (h : HN db)
+    (hns : ∀ n x, N n → HoldAt db n x → SOK db.now x) :
+    EMid (db.now + 1) (midTick db) ∧ (∀ n x, HoldAt (midTick db) n x → db.now + 1 ≤ x.sched.visit) ∧
+      (∀ n x, N n → HoldAt (midTick db) n x → SOK (db.now + 1) x) := by
+  have hs : SMid N (db.now + 1) (sweepTimeout (tick0 db) (db.now + 1)).1 :=
+    sweepTimeout_SMid _ _ _ (tick0_SMid db hk hw h hns)
+  have hsub : ∀ n x, HoldAt (midTick db) n x → HoldAt (sweepTimeout (tick0 db) (db.now + 1)).1 n x :=
+    fun n x hx => hx.of_keys_eq rfl
+  refine ⟨⟨hs.now, rfl, hs.kn.of_keys_eq rfl, hs.kw.of_sub (fun _ _ hx => hx.of_keys_eq rfl),
+    hs.hu.of_keys_seq rfl (Nat.le_refl _), fun n x hx => hs.ok n x (hsub n x hx)⟩,
+    fun n x hx => hs.lb n x (hsub n x hx), fun n x hn hx => hs.ns n x hn (hsub n x hx)⟩
+
 theorem midTick_EMid (db : DB) (hk : KN db) (hw : KW db) (h : HN db) :
-    EMid (db.now + 1) (midTick db) ∧ (∀ n x, HoldAt (midTick db) n x → HoldAt db n x) := by
-  have hsub : ∀ n x, HoldAt (midTick db) n x → HoldAt db n x := by
-    intro n x hx
-    have h1 : HoldAt (sweepTimeout { db with now := db.now + 1, tCheck := db.now + 1 + 1 } (db.now + 1)).1 n x :=
-      hx.of_keys_eq rfl
-    exact (sweepTimeout_holdAt_sub _ _ n x h1).of_keys_eq rfl
-  have hc := clock_fields (clock_sweepTimeout { db with now := db.now + 1, tCheck := db.now + 1 + 1 } (db.now + 1))
-  refine ⟨⟨hc.1, rfl, ?_, ?_, ?_, ?_⟩, hsub⟩
-  · exact ((sweepTimeout_cons (0, 0) { db with now := db.now + 1, tCheck := db.now + 1 + 1 } (db.now + 1)
-      (hk.of_keys_eq rfl)).1).of_keys_eq rfl
-  · have : KW (sweepTimeout { db with now := db.now + 1, tCheck := db.now + 1 + 1 } (db.now + 1)).1 :=
-      sweepTimeout_KW _ _ (hw.of_sub (fun _ _ hx => hx.of_keys_eq rfl))
-    exact this.of_sub (fun _ _ hx => hx.of_keys_eq rfl)
-  · have : HU (sweepTimeout { db with now := db.now + 1, tCheck := db.now + 1 + 1 } (db.now + 1)).1 :=
-      sweepTimeout_hu _ _ (h.hu.of_keys_seq rfl (Nat.le_refl _))
-    exact this.of_keys_seq rfl (Nat.le_refl _)
-  · intro n x hx; exact (h.ok n x (hsub n x hx)).tick
+    EMid (db.now + 1) (midTick db) ∧ (∀ n x, HoldAt (midTick db) n x → db.now + 1 ≤ x.sched.visit) := by
+  have := midTick_SMid (N := fun _ => False) db hk hw h (fun _ _ hn => hn.elim)
+  exact ⟨this.1, this.2.1⟩
 
 /-- one second of server time keeps the invariant -/
 theorem opTick_HN (db : DB) (hk : KN db) (hw : KW db) (h : HN db) :
     HN (opTick db).1 ∧ KW (opTick db).1 ∧ (opTick db).1.now = db.now + 1 := by
-  obtain ⟨hm, hsub⟩ := midTick_EMid db hk hw h
-  have hs := sweepExpire_good (db.now + 1) (midTick db) hm (fun n x hx => h.lb n x (hsub n x hx))
+  obtain ⟨hm, hlb⟩ := midTick_EMid db hk hw h
+  have hs := sweepExpire_good (db.now + 1) (midTick db) hm hlb
   rw [opTick_eq]
   refine ⟨⟨hs.1.ec', hs.1.hu, ?_, ?_⟩, hs.1.kw, hs.1.now⟩
   · intro n x hx; rw [hs.1.now]; exact hs.1.ok n x hx
@@ -417,8 +464,8 @@ theorem fireExpireStep_NSc (c n : Nat) (acc : DB × List Reply) (h0 : Hold) (h :
   · exact h
 
 theorem opTick_NS (db : DB) (n : Nat) (hk : KN db) (hw : KW db) (hn : HN db) (h : NS n db) : NS n (opTick db).1 := by
-  obtain ⟨hm, hsub⟩ := midTick_EMid db hk hw hn
-  have h0 : NSc (db.now + 1) n (midTick db) := ⟨hm, fun x hx => (h x (hsub n x hx)).tick⟩
+  obtain ⟨hm, _, hns⟩ := midTick_SMid (N := fun m => m = n) db hk hw hn (fun m x hm hx => by subst hm; exact h x hx)
+  have h0 : NSc (db.now + 1) n (midTick db) := ⟨hm, fun x hx => hns n x rfl hx⟩
   have h1 : NSc (db.now + 1) n (sweepExpire (midTick db) (db.now + 1)).1 := by
     unfold sweepExpire expirePass1
     exact foldl_P (NSc (db.now + 1) n) _ (fireExpireStep_NSc _ n) _ _ (foldl_P (NSc (db.now + 1) n) _ (expireStep_NSc _ n) _ _ h0)
